@@ -316,6 +316,28 @@ def _uses_unguarded(prog, fn, fi, did, deref_params):
 
 
 # ------------------------------------------------------------------------------------------
+INT32 = ("int", "unsigned int", "const int", "const unsigned int", "short", "unsigned short")
+
+
+def wraps_in_32bit(fn, expr, tainted):
+    """arithmetic (+, *) carried out in a 32-bit type on a value that depends on file content"""
+    for x in walk(expr):
+        if x.get("k") == "BinaryOperator" and x.get("op") in ("*", "+", "<<") and x.get("t", "") in INT32:
+            for y in walk(x):
+                if y.get("k") == "DeclRefExpr" and y["ref"]["did"] in tainted:
+                    # a literal-only partner cannot be excluded from wrapping either: id*3, id+3
+                    return True
+    return False
+
+
+def wrapped_locals(fn, tainted):
+    out = set()
+    for n in walk(fn["body"]):
+        if n.get("k") == "Var" and isinstance(n.get("init"), dict) and n.get("t", "").replace("const ", "") in ("int", "unsigned int") and wraps_in_32bit(fn, n["init"], tainted):
+            out.add(n["did"])
+    return out
+
+
 INT_VEC = re.compile(r"std::vector<(std::vector<)?(unsigned int|int|unsigned long|long|short|unsigned short)")
 
 
@@ -427,8 +449,12 @@ def file_index(rep, prog):
                 continue
             cont_fields = {x["ref"].get("qn") for x in walk(cont) if x.get("k") == "MemberExpr"}
             ok = False
+            wrap_note = ""
             for cond, pol in fi.guards(n):
                 refs = {x["ref"]["did"] for x in walk(cond) if x.get("k") == "DeclRefExpr"}
+                if wraps_in_32bit(fn, cond, tainted) or any(d in wrapped_locals(fn, tainted) for d in (names & refs)):
+                    wrap_note = " (a condition relating it to the container size exists but computes with the file value in 32-bit arithmetic, which wraps for large values)"
+                    continue
                 mentions_idx = bool(names & refs) if idx is not None else True
                 size_of_cont = False
                 for x in walk(cond):
@@ -447,4 +473,4 @@ def file_index(rep, prog):
             else:
                 rep.violation("C17.file-index", prog, fn, n, "unchecked %s" % re.sub(r"#\d+", "", what),
                               "%s uses a value parsed from the input mesh file (%s) and no dominating condition relates it to the size of the indexed container: a face list that references non-existent points / an empty record reads out of bounds instead of raising mesh_reader_exception"
-                              % (what, ", ".join(sorted(tainted[d] for d in names)) or "record may be empty"))
+                              % (what, (", ".join(sorted(tainted[d] for d in names)) or "record may be empty") + wrap_note))
